@@ -712,6 +712,11 @@ func (c *c02) judge(where string, name, kid string, pub ed25519.PublicKey, publa
 		if err == nil {
 			r.Probe("copied_signature_verifies_under_origin_key")
 		}
+	case valid && c.dupWire:
+		// the text in flight repeats a member name whose last occurrence
+		// happens to restore the signed value: whether such a text "is" the
+		// signed object is outside what the completeness clause speaks about
+		r.Probe("repeated_name_restores_signed_value_not_judged")
 	case valid:
 		if err != nil && c.relax {
 			r.Probe("verify_refused_after_garbage_signature")
